@@ -163,6 +163,20 @@ func parseWith(q, df string) (*expr.Expression, error) {
 	return lucene.Parse(q)
 }
 
+// every result that holds memory (a tree, a parameter list, encoded bytes) is shown only AFTER one more call of the same kind
+// has been made with other arguments: a result that aliases state shared between calls (a pooled buffer, a reused slice)
+// then shows up as a wrong observation.
+var interfering = "zq:17 AND (yq:w*y OR NOT xq:[2.5 TO *]) AND vq:(p OR q) uq:\"s t\""
+
+func interfere() {
+	defer func() { recover() }()
+	if ex, err := lucene.Parse(interfering); err == nil && ex != nil {
+		pg.RenderParam(ex)
+		json.Marshal(ex)
+	}
+	lucene.ToParameterizedPostgres(interfering)
+}
+
 func renderAll(e *expr.Expression) []string {
 	return []string{
 		guard(func() string { return "x" + hx(e.String()) }),
@@ -173,6 +187,7 @@ func renderAll(e *expr.Expression) []string {
 		}),
 		guard(func() string {
 			s, ps, err := pg.RenderParam(e)
+			interfere()
 			return "x" + hx(s) + "#" + showParams(ps) + errflag(err)
 		}),
 		guard(func() string {
@@ -180,6 +195,7 @@ func renderAll(e *expr.Expression) []string {
 			if err != nil {
 				return "ERR"
 			}
+			interfere()
 			return "x" + hx(string(b))
 		}),
 	}
@@ -190,6 +206,7 @@ func observeQuery(q, df string) []string {
 	var e *expr.Expression
 	res := guard(func() string {
 		ex, err := parseWith(q, df)
+		interfere()
 		s := "nil"
 		if ex != nil {
 			s = showExpr(ex)
@@ -232,6 +249,7 @@ func observeQuery(q, df string) []string {
 		} else {
 			s, ps, err = lucene.ToParameterizedPostgres(q)
 		}
+		interfere()
 		return "x" + hx(s) + "#" + showParams(ps) + errflag(err)
 	}))
 	// JSON round trip of the returned tree
